@@ -81,7 +81,7 @@ type c14Ref struct {
 
 func c14Resolve(confs []c14Ref, name string) (string, []string, bool) {
 	for _, c := range confs {
-		if c.name == name {
+		if c.name == name && c.re == nil { // only a static configuration is selected by its exact name
 			return c.name, nil, true
 		}
 	}
